@@ -169,7 +169,7 @@ def cmp_view(got, exp):
         d = "longer" if longer and not shorter else "shorter" if shorter and not longer else "mixed"
         # witness pattern: is every changed path off by one and the same amount?
         diffs = [g - e for g, e in worse.values()]
-        scale = max(1.0, max(abs(e) for e in exp[2].values()))
+        scale = max(1.0, max(abs(e) for e in exp[2].values()), max(abs(g) for g in got[2].values()))
         if all(abs(x - diffs[0]) <= 1e-9 * scale for x in diffs):
             d += "-by-a-constant"
         k = sorted(worse)[0]
@@ -653,8 +653,10 @@ def name_class(nm):
         return "leading-or-trailing-space"
     if any(c in nm for c in "()[],:;"):
         return "newick-structural-char"
-    if "'" in nm or '"' in nm:
-        return "quote-char"
+    if "'" in nm:
+        return "starts-with-single-quote" if nm[0] == "'" else "ends-with-single-quote" if nm[-1] == "'" else "inner-single-quote"
+    if '"' in nm:
+        return "starts-with-double-quote" if nm[0] == '"' else "inner-double-quote"
     if " " in nm and "_" in nm:
         return "space-and-underscore"
     if " " in nm:
